@@ -491,15 +491,69 @@ theorem mergeNodeSlices_self (f : MergeFn) (hfr : FreshFn f) (ks : List Node) (h
   rw [e1]
   exact this.toReorderL
 
+/-! ## Equals and re-ordering under the wide guard -/
+
+theorem equalsShallow_refl_wide {D : List Str} {k : Node} (h : wideOK D k = true) :
+    equalsShallow k k = true :=
+  refl_cover ⟨rfl, rfl, rfl⟩ ((wideOK_iff D _).mp h).1
+    (fun x hx => ⟨x, hx, covers_refl x (((wideOK_iff D _).mp h).2 x hx)⟩)
+
+/-- the DATE children of a re-ordered node carry the same values -/
+theorem reorder_dates {a a' : Node} (h : Reorder a a') :
+    (∀ d ∈ a.dates, ∃ d' ∈ a'.dates, d'.value = d.value) ∧
+    (∀ d' ∈ a'.dates, ∃ d ∈ a.dates, d'.value = d.value) := by
+  cases h with
+  | @mk t v p ks ks'' ks' hro hperm =>
+    constructor
+    · intro d hd
+      obtain ⟨hdk, hdd⟩ := mem_dates hd
+      obtain ⟨y, hy, hre⟩ := hro.mem_left hdk
+      refine ⟨y, List.mem_filter.mpr ⟨hperm.subset hy, ?_⟩, hre.head.2.1.symm⟩
+      rw [← isDate_reorder hre]; exact hdd
+    · intro d' hd'
+      obtain ⟨hdk, hdd⟩ := mem_dates hd'
+      obtain ⟨x, hx, hre⟩ := hro.mem_right (hperm.symm.subset hdk)
+      refine ⟨x, List.mem_filter.mpr ⟨hx, ?_⟩, hre.head.2.1.symm⟩
+      rw [isDate_reorder hre]; exact hdd
+
+/-- under the guard, Equals of a receiver does not change when its children are re-ordered -/
+theorem equalsShallow_reorder_iff {D : List Str} {a a' b : Node} (h : Reorder a a')
+    (ha : nodeOK D a = true) : equalsShallow a b = true ↔ equalsShallow a' b = true := by
+  have hh : sameHdr a a' := h.head
+  by_cases hr : a.rule = .resi ∨ a.rule = .even
+  · have hr' : a'.rule = .resi ∨ a'.rule = .even := by rw [← hh.rule]; exact hr
+    have hd := nodeOK_dated ha hr
+    obtain ⟨c1, c2⟩ := reorder_dates h
+    have hd' : a'.dates ≠ [] := by
+      obtain ⟨d, ds, hds⟩ := List.exists_cons_of_ne_nil hd
+      obtain ⟨d', hd', _⟩ := c1 d (by rw [hds]; simp)
+      exact List.ne_nil_of_mem hd'
+    constructor
+    · intro hE
+      obtain ⟨hb, hm⟩ := multi_dates hr hd hE
+      obtain ⟨d, hdm, db, hdb, hv⟩ := (datesMatch_iff _ _).mp hm
+      obtain ⟨d', hd'm, hv'⟩ := c1 d hdm
+      exact multi_of_dates hr' (hb.trans hh.rule)
+        ((datesMatch_iff _ _).mpr ⟨d', hd'm, db, hdb, by rw [hv']; exact hv⟩)
+    · intro hE
+      obtain ⟨hb, hm⟩ := multi_dates hr' hd' hE
+      obtain ⟨d', hdm, db, hdb, hv⟩ := (datesMatch_iff _ _).mp hm
+      obtain ⟨d, hd'm, hv'⟩ := c2 d' hdm
+      exact multi_of_dates hr (hb.trans hh.rule.symm)
+        ((datesMatch_iff _ _).mpr ⟨d, hd'm, db, hdb, by rw [← hv']; exact hv⟩)
+  · have h1 : a.rule ≠ .resi := fun h => hr (Or.inl h)
+    have h2 : a.rule ≠ .even := fun h => hr (Or.inr h)
+    rw [equalsShallow_congr (b := b) (b' := b) hh ⟨rfl, rfl, rfl⟩ h1 h2]
+
 /-! ## MergeNodes of a tree with (a copy of) itself -/
 
 theorem foldRight_self {D : List Str} (eqf : MergeFn) (hfr : FreshFn eqf) (root : Nat)
-    (rootTag : Str) (ks : List Node) (hne : noEqList ks = true) (hok : ∀ k ∈ ks, hdrOK D k = true)
+    (rootTag : Str) (ks : List Node) (hne : noEqList ks = true) (hok : ∀ k ∈ ks, wideOK D k = true)
     (hself : ∀ k ∈ ks, SelfFn eqf k.kids ∧ k.kids.Nodup)
     (kids cur : List INode) (st : MSt) (hcur : cur.map INode.erase = ks)
     (hkids : kids.map INode.erase = ks) :
     ReorderL ks ((foldRight ⟨true, true, true⟩ eqf root rootTag cur kids st).1.map INode.erase) := by
-  have hnd : ks.Nodup := noEqList_nodup hne (fun k hk => equalsShallow_refl_hdr (hok k hk))
+  have hnd : ks.Nodup := noEqList_nodup hne (fun k hk => equalsShallow_refl_wide (hok k hk))
   let Inv : List INode → List INode → MSt → Prop := fun c rest _ =>
     Pw (fun k n => Reorder k n.erase ∧ (k ∈ rest.map INode.erase → n.erase = k)) ks c ∧
     (∀ x ∈ rest, x.erase ∈ ks) ∧ (rest.map INode.erase).Nodup
@@ -510,11 +564,9 @@ theorem foldRight_self {D : List Str} (eqf : MergeFn) (hfr : FreshFn eqf) (root 
       obtain ⟨k1, k, k2, hks, hp1, hpk, hp2⟩ := hpw.split_right
       have hkm : k ∈ ks := by rw [hks]; simp
       have hcm : child.erase ∈ ks := h2 child (by simp)
-      have hkr := hdrOK_rule (hok k hkm)
       have hkc : k = child.erase := by
         apply noEqList_eq hne hkm hcm
-        rw [equalsShallow_congr (b := child.erase) (b' := child.erase) hpk.1.head ⟨rfl, rfl, rfl⟩ hkr.1 hkr.2]
-        exact hE
+        exact (equalsShallow_reorder_iff hpk.1 ((wideOK_iff D _).mp (hok k hkm)).1).mpr hE
       have hnk : n.erase = k := hpk.2 (by rw [hkc]; simp)
       have hsk := hself k hkm
       have hm := mergeNodeSlices_self eqf hfr k.kids hsk.1 hsk.2 child.kids n.kids s
@@ -546,10 +598,9 @@ theorem foldRight_self {D : List Str} (eqf : MergeFn) (hfr : FreshFn eqf) (root 
       obtain ⟨hpw, h2, _⟩ := h
       have hcm : child.erase ∈ ks := h2 child (by simp)
       obtain ⟨n, hn, hrel, _⟩ := hpw.mem_left hcm
-      have hkr := hdrOK_rule (hok _ hcm)
       have := hnone n hn
-      rw [← equalsShallow_congr (b := child.erase) (b' := child.erase) hrel.head ⟨rfl, rfl, rfl⟩ hkr.1 hkr.2,
-        equalsShallow_refl_hdr (hok _ hcm)] at this
+      rw [(equalsShallow_reorder_iff hrel ((wideOK_iff D _).mp (hok _ hcm)).1).mp
+        (equalsShallow_refl_wide (hok _ hcm))] at this
       cases this)
     kids cur st
     (by
@@ -561,12 +612,12 @@ theorem foldRight_self {D : List Str} (eqf : MergeFn) (hfr : FreshFn eqf) (root 
 
 theorem INode.erase_tag (n : INode) : n.erase.tag = n.tag := by rw [INode.erase_eq]; rfl
 
-/-- PARTIAL (guard: Equals by tag, value and pointer).  With a budget of the height of the tree,
+/-- PARTIAL (guard: `wideOK`, dated RESI / EVEN admitted).  With a budget of the height of the tree,
     merging a tree with a tree of the same value returns that tree with children re-ordered,
     provided no two siblings are Equal. -/
 theorem mergeNodesF_self {D : List Str} (fuel : Nat) :
     ∀ (l r : INode) (st : MSt), l.erase = r.erase → l.erase.hgt ≤ fuel → noEqSib l.erase = true →
-      plainOK D l.erase = true →
+      wideOK D l.erase = true →
       ∃ m st', mergeNodesF ⟨true, true, true⟩ fuel l r st = .ok m st' ∧ Reorder l.erase m.erase := by
   induction fuel with
   | zero => intro l r st _ h; rw [Node.hgt_eq] at h; omega
@@ -582,19 +633,19 @@ theorem mergeNodesF_self {D : List Str} (fuel : Nat) :
       rw [← INode.erase_kids, hce]
     have hrk : r.kids.map INode.erase = l.erase.kids := by rw [← INode.erase_kids, heq]
     have hne' := (noEqSib_iff _).mp hne
-    have hok' := (plainOK_iff D _).mp hok
+    have hok' := (wideOK_iff D _).mp hok
     rw [Node.hgt_eq] at hh
     have hf := foldRight_self (D := D) (eqMergeWith (mergeNodesF ⟨true, true, true⟩ fuel))
       (eqMergeWith_fresh _ (mergeNodesF_fresh fuel)) (copyM l st).1.id l.tag l.erase.kids hne'.1
-      (fun k hk => ((plainOK_iff D _).mp (hok'.2 k hk)).1)
+      (fun k hk => hok'.2 k hk)
       (by
         intro k hk
         have hkne := (noEqSib_iff _).mp (hne'.2 k hk)
-        have hkok := (plainOK_iff D _).mp (hok'.2 k hk)
+        have hkok := (wideOK_iff D _).mp (hok'.2 k hk)
         have hkh : k.hgt ≤ fuel := by have := hgtList_le.mp (Nat.le_refl _) k hk; omega
         rw [Node.hgt_eq] at hkh
         refine ⟨⟨?_, ?_⟩, noEqList_nodup hkne.1
-          (fun x hx => equalsShallow_refl_hdr ((plainOK_iff D _).mp (hkok.2 x hx)).1)⟩
+          (fun x hx => equalsShallow_refl_wide (hkok.2 x hx))⟩
         · intro a b s ha hb hab
           unfold eqMergeWith
           split
@@ -604,7 +655,7 @@ theorem mergeNodesF_self {D : List Str} (fuel : Nat) :
         · intro a b s ha hb
           have hx := hkok.2 _ ha
           have hE : equalsShallow a.erase b.erase = true := by
-            rw [hb]; exact equalsShallow_refl_hdr ((plainOK_iff D _).mp hx).1
+            rw [hb]; exact equalsShallow_refl_wide hx
           obtain ⟨m, s', hm, hre⟩ := ih a b s hb.symm
             (by have := hgtList_le.mp (Nat.le_refl _) _ ha; omega) (hkne.2 _ ha) hx
           refine ⟨m, ?_, hre⟩
